@@ -88,6 +88,11 @@ Fixpoint join (facts : list ofact) (body : list pred) (s : env) (o : origin) : l
 Definition visible (trusted : origin) (facts : list ofact) : list ofact :=
   filter (fun of => osubset (fst of) trusted) facts.
 
+Inductive run_error := RunExpr (e : err) | TooManyIterations | TooManyFacts | Timeout.
+Inductive run_res (A : Type) := ROk (a : A) | RErr (e : run_error).
+Arguments ROk {A} a.
+Arguments RErr {A} e.
+
 Section Engine.
 Variable orc : oracles.
 
@@ -154,11 +159,6 @@ Fixpoint apply_rules (facts : list ofact) (rs : list rule_entry) : res (list ofa
 Definition add_fact (facts : list ofact) (f : ofact) : list ofact :=
   if existsb (ofact_eqb f) facts then facts else facts ++ [f].
 Definition merge (facts new : list ofact) : list ofact := fold_left add_fact new facts.
-
-Inductive run_error := RunExpr (e : err) | TooManyIterations | TooManyFacts | Timeout.
-Inductive run_res (A : Type) := ROk (a : A) | RErr (e : run_error).
-Arguments ROk {A} a.
-Arguments RErr {A} e.
 
 (* World::run_with_limits without the clock (the clock is modelled in Limits.v):
    returns the final facts and the number of productive iterations *)
